@@ -53,7 +53,8 @@ def records(N, cplx, tier):
     fam = [f for f in fam if f[0].startswith('weyl') or f[0].startswith('cweyl')]
     if tier == 'quick':
         fam = fam[:3]
-    return fam + arma_records(N, cplx)
+    ints = [] if cplx else [r for r in A.pcm(N) if r[0] == 'pcm16_noise'] + A.pcm64(N)     # integer sample dtypes (noise-like records)
+    return fam + arma_records(N, cplx) + ints
 
 
 def shards(tier):
@@ -131,7 +132,7 @@ def eval_point(pt, R):
             return
         feats = {'dtype': dt, 'solver': 'marple(P<=4)' if P <= 4 else 'lstsq(P>4)'}
         # reference modified Yule-Walker system (P == Q): rows m = Q+1..lag
-        r = rc.correlation(x, x, lag, 'unbiased')
+        r = rc.correlation(A.prom(x), A.prom(x), lag, 'unbiased')
         ref_a = None
         if P == Q:
             rows = range(Q + 1, lag + 1)
